@@ -547,6 +547,9 @@ pub fn run(rep: &mut Report, tier: Tier) {
     // and nested, with every kind of payload. All of them are ordinary keys (D11 apart).
     {
         let looks_reserved = [
+            // (the one token the crate does reserve: as a *first* key it is the known finding
+            // D11 - classified by check_value -, anywhere else it is an ordinary key)
+            TOKEN,
             "$serde_json::private::RawValue",
             "$serde_json::private::Numbe",
             "$serde_json::private::Numberx",
@@ -561,7 +564,7 @@ pub fn run(rep: &mut Report, tier: Tier) {
             "@type",
             "",
         ];
-        let payloads = [RV::Null, RV::Bool(true), RV::num("1"), RV::num("1.5"), RV::str("1"), RV::str("[1,2]"), RV::str("{\"a\":1}"), RV::str("x"), RV::Arr(vec![]), RV::Arr(vec![RV::num("1")]), RV::Obj(vec![]), RV::Obj(vec![("a".into(), RV::num("1"))])];
+        let payloads = [RV::Null, RV::Bool(true), RV::num("1"), RV::num("1.5"), RV::str("1"), RV::str("12.50"), RV::str("-3e2"), RV::str("[1,2]"), RV::str("{\"a\":1}"), RV::str("x"), RV::Arr(vec![]), RV::Arr(vec![RV::num("1")]), RV::Obj(vec![]), RV::Obj(vec![("a".into(), RV::num("1"))])];
         let mut t = Tally::new();
         for k in looks_reserved {
             for p in &payloads {
